@@ -33,9 +33,24 @@ class PrivateArithmeticError(ZeroDivisionError):
     pass
 
 
+class GuardedFault(Exception):
+    """An exception class that forbids attribute assignment (like a frozen dataclass / attrs exception): the
+    engine must hand it on as it is, not decorate it through setattr."""
+
+    def __init__(self, *a) -> None:
+        super().__init__(*a)
+        object.__setattr__(self, "_sealed", True)
+
+    def __setattr__(self, name, value):
+        if getattr(self, "_sealed", False):
+            raise TypeError(f"cannot assign to field {name!r} of a sealed exception")
+        object.__setattr__(self, name, value)
+
+
 # exceptions a data object may raise; none of them is a documented lookup signal
 # (AttributeError / LookupError / TypeError become undefined in some contexts, StopIteration from a callable too)
-FAULT_CLASSES = (PrivateFault, PrivateAbort, PrivateValueError, PrivateRuntimeError, PrivateOSError, PrivateArithmeticError)
+FAULT_CLASSES = (PrivateFault, PrivateAbort, PrivateValueError, PrivateRuntimeError, PrivateOSError, PrivateArithmeticError,
+                 GuardedFault)
 
 
 class Events:
@@ -129,7 +144,21 @@ def make_async_data(tape, events: Events, *, gate_stream: str = "g", data_stream
         yield from asyncio.sleep(GATE_DELAYS[tape.draw(len(GATE_DELAYS), gate_stream)]).__await__()
         return W.f1(x) + 3
 
+    def sg1():
+        for v in items:
+            events.ev("gen")
+            yield v
+
+    class EvStr:
+        def __str__(self_) -> str:
+            events.ev("str")
+            return str(data["s2"]) + "!"
+
+        def __repr__(self_) -> str:
+            return "EvStr()"
+
     data.update(
+        sg1=sg1, so1=EvStr(),
         gc1=gc1, f1=f1, f2=f2, af1=af1, af2=af2,
         ai1=AIter(items, events, tape, gate_stream),
         ai2=AIter(list(data["ld"]), events, tape, gate_stream),
